@@ -14,11 +14,19 @@ def setup(sh):
     monitors.install_pipeline()
 
 
+_N = [0]
+
+
 def call(sh, sig, peaks, troughs, driver, case=None):
     from bycycle.cyclepoints import find_zerox
+    from .. import pipeline
     vs = []
+    _N[0] += 1
+    view = (None, None, 'strided', 'readonly', 'reversed')[_N[0] % 5]       # memory layout of the signal, rotating
+    if view:
+        attach.count('C03:sig_view=' + view)
     try:
-        find_zerox(sig, np.asarray(peaks, dtype=int), np.asarray(troughs, dtype=int))
+        find_zerox(pipeline.as_view(sig, view), np.asarray(peaks, dtype=int), np.asarray(troughs, dtype=int))
     except Exception as e:
         vs.append({'mechanism': attach.exc_mechanism(e), 'message': 'find_zerox raised %r' % (e,)})
     vs += [v for v in attach.take_violations() if v['property'] in (PROP, '_monitor')]
@@ -88,6 +96,8 @@ def run(sh):
                              'troughs': [int(v) for v in t[:4]]})
     # branch counters into classes
     for k, v in attach.COUNTS.items():
+        if k.startswith('C03:sig_view='):
+            sh.classes[k[4:]] = v
         if k.startswith('C03:branch:'):
             sh.classes['flanks:' + k[11:]] = v
     # distinct non-trivial exhaustive flanks: counted by branch kind per shard (conservative)
